@@ -58,7 +58,7 @@ func init() {
 			// key descriptions encoded as the published schema says, by the harness's independent DER encoder
 			n := c.N(4, 60)
 			for i := 0; i < n; i++ {
-				for _, dv := range []string{"ak.schemaNull.allApps", "ak.schemaNull.originAfterNull", "ak.schemaUnknownTag.originAfter", "ak.schemaUnknownTag.allAppsAfter"} {
+				for _, dv := range []string{"ak.schemaNull.allApps", "ak.schemaNull.originAfterNull", "ak.schemaUnknownTag.originAfter", "ak.schemaUnknownTag.allAppsAfter", "ak.schemaMistyped.originAfter"} {
 					attestCase(c, "req.android-key."+dv, "android-key", []string{dv}, i%2 == 1)
 				}
 				s := newRegSpec(c.R, "android-key", pick(c.R, credAlgsFor("android-key")))
